@@ -19,7 +19,7 @@ PROPS = {
              monitors=['escrowSplit'], uses_generated=True),
  'C06': dict(level='proof', sections=['vpn/subscription/20', 'vpn/subscription/12'], result_ops=['tx:subAllocate', 'tx:sessStart'], monitors=['allocBounds', 'quotaConserved']),
  'C07': dict(level='proof', sections=None, result_ops=['*'], monitors=[]),
- 'C08': dict(level='proof', sections=[], result_ops=['tx'], monitors=['statuses']),
+ 'C08': dict(level='proof', sections=['vpn/subscription/34', 'vpn/session/15'], result_ops=['tx'], monitors=['statuses']),
  'C09': dict(level='proof', sections=IDX, result_ops=['query'], monitors=['nodeIdx', 'sessIdx', 'subIdx', 'partitions', 'wellFormed'], uses_generated=True),
  'C10': dict(level='proof', sections=None, result_ops=['*'], monitors=[], uses_generated=True, determinism=True,
              partial='runtime half (goroutine scheduling, map seeds) is differential only: re-executions compared byte for byte incl. app hash'),
@@ -29,10 +29,10 @@ PROPS = {
  'C13': dict(level='proof', sections=[], result_ops=['query'], monitors=[], uses_generated=True, probe=True),
  'C14': dict(level='proof', sections=['swap', 'bank', 'supply'], result_ops=['tx:swap'], monitors=['swaps', 'supply'], uses_generated=True),
  'C15': dict(level='proof', sections=['custommint', 'sdkmint', 'events'], result_ops=['mintprobe', 'begin'], monitors=[]),
- 'C16': dict(level='proof', sections=[], result_ops=[], monitors=[], probe=True, uses_generated=True),
+ 'C16': dict(level='proof', sections=['vpn/deposit', 'event:PayFor'], result_ops=[], monitors=['escrowSplit'], probe=True, uses_generated=True),
  'C17': dict(level='proof', sections=[], result_ops=[], monitors=[], probe=True, uses_generated=True),
  'C18': dict(level='proof', sections=['vpn/plan/00', 'vpn/subscription/00', 'vpn/session/00', 'vpn/plan/10', 'vpn/subscription/10', 'vpn/session/10', 'vpn/subscription/20', 'vpn/subscription/30'],
              result_ops=['tx:planCreate', 'tx:nodeSubscribe', 'tx:planSubscribe', 'tx:sessStart'], monitors=['counters']),
- 'C19': dict(level='proof', sections=['param'], result_ops=[], monitors=[], probe=True, uses_generated=True,
+ 'C19': dict(level='proof', sections=['param'], result_ops=['export'], monitors=[], probe=True, uses_generated=True,
              partial='JSON half reduces to the regenerated enum tables: status_json_roundtrip is FALSE on this tree (known finding F7, witness theorem status_json_roundtrip_fails)'),
 }
